@@ -78,10 +78,12 @@ def run(ctx):
     fn = sm.func("FormFactor")
     ctx.saw(sm, fn)
     ev = Evaluator(sm, inline=set())
-    at = Rat.atom("atomtype")
     stl = Rat.atom("stl")
-    got = scalar(ev.call_function("FormFactor", [at, stl]))
     base = "xfab.atomlib.formfactor[atomtype]"
+    # the table as seen from structure.py: a dictionary whose row for the requested element is nine symbols
+    from xfabsa.symeval import sym_array
+    ev.import_values = {"xfab.atomlib.formfactor": {"atomtype": sym_array(base, (9,))}}
+    got = scalar(ev.call_function("FormFactor", ["atomtype", stl]))
     env = {"stl": stl}
     for i in range(9):
         env["d%d" % i] = Rat.atom("%s[%d]" % (base, i))
